@@ -610,6 +610,8 @@ class Scripted(BaseStrategy):
                         for b in a["actions"]:
                             if b["op"] == "execute":
                                 t.execute()
+                            elif b["op"] == "raise":
+                                raise RuntimeError("injected inside the transaction block")
                             else:
                                 do_action(rec, self, market, t, b)
                 elif a["op"] == "raise":
